@@ -146,23 +146,37 @@ theorem idx_spec (g : Graph) (node : String) (idx : List Int) :
   · intro h; rw [checkNode_ok g _ h]; rfl
   · intro h; obtain ⟨e, he⟩ := checkNode_err g _ h; exact ⟨e, by rw [he]; rfl⟩
 
-/-- selecting by level returns all nodes of that level under the prefix, in creation order -/
-theorem lvl_spec (g : Graph) (node : String) (lvl : Int)
-    (hl : ∀ n ∈ g.nodes, n.name.startsWith node = true → n.lvl.isSome) :
-    nodesFromLvl g node lvl = .ok (((g.nodes.filter (·.name.startsWith node)).filter
-      (fun n => n.lvl.map (fun (l : Nat) => (l : Int)) == some lvl)).map (·.name)) := by
-  unfold nodesFromLvl
-  have : (g.nodes.filter (·.name.startsWith node)).any (·.lvl.isNone) = false := by
-    rw [Bool.eq_false_iff]
+/-- selecting by level returns the nodes of that level of the named tree, in creation order (never an error, and
+    never a node of another tree or unit whose name merely starts with the same characters) -/
+theorem lvl_spec (g : Graph) (node : String) (lvl : Int) :
+    nodesFromLvl g node lvl = .ok (((g.nodes.filter fun n => inTree node n.name).filter
+      (fun n => n.lvl.map (fun (l : Nat) => (l : Int)) == some lvl)).map (·.name)) := rfl
+
+/-- a name that continues the tree's name with anything but `_` is not a node of the tree (`r2_0` for tree `r`) -/
+theorem not_inTree_of_next (node name : String) (c : Char) (rest : List Char) (hc : c ≠ '_')
+    (hn : name.toList = node.toList ++ c :: rest) : inTree node name = false := by
+  unfold inTree
+  have h1 : (name == node) = false := by
+    rw [beq_eq_false_iff_ne]
     intro h
-    obtain ⟨n, hn, hnone⟩ := List.any_eq_true.1 h
-    have hm := List.mem_filter.1 hn
-    have := hl n hm.1 hm.2
-    cases hlv : n.lvl <;> simp [hlv] at this hnone
-  simp only [this]
-  rfl
+    rw [h] at hn
+    have := congrArg List.length hn
+    simp at this
+  have h2 : (node ++ "_").toList.isPrefixOf name.toList = false := by
+    rw [hn, String.toList_append]
+    have : "_".toList = ['_'] := rfl
+    rw [this, Bool.eq_false_iff]
+    intro hp
+    rw [List.isPrefixOf_iff_prefix] at hp
+    obtain ⟨t, ht⟩ := hp
+    rw [List.append_assoc] at ht
+    have := List.append_cancel_left ht
+    simp only [List.singleton_append, List.cons.injEq] at this
+    exact hc this.1.symm
+  rw [h1, h2]; rfl
 
 /-! non-vacuity -/
+example : inTree "r" "r_0_12" = true ∧ inTree "r" "r2_0" = false ∧ inTree "r" "r_cfg" = false ∧ inTree "rt" "rt" = true ∧ inTree "r" "r_" = false := by decide
 example : cartNames "r" [(0, 1), (2, 1)] = ["r_0_2", "r_0_1", "r_1_2", "r_1_1"] := by decide
 example : pyRange 2 0 = [2, 1, 0] ∧ pyRange 1 1 = [1] ∧ pyRange (-1) 1 = [-1, 0, 1] := by decide
 
